@@ -224,17 +224,27 @@ where
     print!("|");
     let len = labels.len();
     for (i, label) in labels.iter().enumerate() {
-        print!(" {:indent$} |", label, indent = widths[i]);
+        print!(" {} |", pad(&label.to_string(), widths[i]));
     }
     println!(
-        " {:indent$} |",
-        match result {
-            BDD::True => "True",
-            BDD::False => "False",
-            _ => unreachable!(),
-        },
-        indent = widths[len]
+        " {} |",
+        pad(
+            match result {
+                BDD::True => "True",
+                BDD::False => "False",
+                _ => unreachable!(),
+            },
+            widths[len]
+        )
     );
+}
+
+// left-align `text` in a column of `width` characters, as `{:width$}` does; a width passed to the
+// formatting machinery at run time must fit in 16 bits, which a column as wide as a long variable
+// name does not
+fn pad(text: &str, width: usize) -> String {
+    let fill = width.saturating_sub(text.chars().count());
+    format!("{}{}", text, " ".repeat(fill))
 }
 
 // print header
@@ -246,11 +256,11 @@ where
     print!("|");
     for free_var in labels {
         let len = 1 + max(5, free_var.len());
-        print!(" {:indent$}|", free_var, indent = len);
+        print!(" {}|", pad(free_var, len));
     }
     println!();
     for width in widths {
-        print!("|{:->width$}", "", width = width + 2);
+        print!("|{}", "-".repeat(width + 2));
     }
     println!("|");
 }
